@@ -260,32 +260,47 @@ func checkDryRun(c *Ctx, rule string) {
 			// from it — success or failure — the cache entry must be dropped again, or the rolled-back account stays visible
 			// (and shadows the account a later real import creates under the same number)
 			isInval := func(cc *ssa.CallCommon) bool { return calleeShort(cc) == "InvalidateAccountCache" }
-			nIssue := 0
-			for _, ci := range callsOf(cl) {
-				n := calleeShort(ci.Common())
-				if n != "NextExternalAddresses" && n != "NextInternalAddresses" {
-					continue
-				}
-				nIssue++
-				covered := false
-				for _, b := range cl.Blocks {
+			// covered: in f, a deferred invalidation is registered before ci, or every return reachable from ci passes a direct one
+			covered := func(f *ssa.Function, ci ssa.Instruction) bool {
+				for _, b := range f.Blocks {
 					for _, ins := range b.Instrs {
 						if d, ok := ins.(*ssa.Defer); ok && isInval(&d.Call) {
 							if (b == ci.Block() && instrIndex(d) < instrIndex(ci)) || (b != ci.Block() && b.Dominates(ci.Block())) {
-								covered = true
+								return true
 							}
 						}
 					}
 				}
-				if !covered {
-					q := &PathQuery{Fn: cl, Barrier: func(i ssa.Instruction) bool {
-						call, ok := i.(*ssa.Call)
-						return ok && isInval(&call.Call)
-					}, Target: func(i ssa.Instruction, _ *ssa.BasicBlock) bool { _, ok := i.(*ssa.Return); return ok }}
-					covered = len(q.From(ci)) == 0
+				q := &PathQuery{Fn: f, Barrier: func(i ssa.Instruction) bool {
+					call, ok := i.(*ssa.Call)
+					return ok && isInval(&call.Call)
+				}, Target: func(i ssa.Instruction, _ *ssa.BasicBlock) bool { _, ok := i.(*ssa.Return); return ok }}
+				return len(q.From(ci)) == 0
+			}
+			isIssue := func(n string) bool { return n == "NextExternalAddresses" || n == "NextInternalAddresses" }
+			nIssue := 0
+			for _, ci := range callsOf(cl) {
+				n := calleeShort(ci.Common())
+				if isIssue(n) {
+					nIssue++
+					c.Check(rule, "account-dry-run-always-invalidates-cache:"+n, ci.Pos(), covered(cl, ci),
+						"ImportAccountDryRun can leave its transaction (on an error after "+n+") without invalidating the account cache entry the dry run created: the rolled-back account stays in memory")
+					continue
 				}
-				c.Check(rule, "account-dry-run-always-invalidates-cache:"+n, ci.Pos(), covered,
-					"ImportAccountDryRun can leave its transaction (on an error after "+n+") without invalidating the account cache entry the dry run created: the rolled-back account stays in memory")
+				// the derivations may sit in an extracted same-package helper: covered inside it, or at its call site here
+				g := ci.Common().StaticCallee()
+				if g == nil || g.Pkg != cl.Pkg || len(g.Blocks) == 0 {
+					continue
+				}
+				for _, ci2 := range callsOf(g) {
+					n2 := calleeShort(ci2.Common())
+					if !isIssue(n2) {
+						continue
+					}
+					nIssue++
+					c.Check(rule, "account-dry-run-always-invalidates-cache:"+n2, ci2.Pos(), covered(g, ci2) || covered(cl, ci),
+						"ImportAccountDryRun can leave its transaction (on an error after "+n2+") without invalidating the account cache entry the dry run created: the rolled-back account stays in memory")
+				}
 			}
 			c.Floor(rule, "address derivations in the account dry run", nIssue, 2)
 		}
